@@ -518,7 +518,7 @@ class Interp(Exec):
         if isinstance(a, VStr) and isinstance(b, VStr) and isinstance(op, ast.Add):
             return VStr(z3.Concat(a.t, b.t))
         if isinstance(a, VStr) and isinstance(b, VInt) and isinstance(op, ast.Mult):
-            return VStr(self.str_repeat(a.t, b.t))
+            return VStr(self.str_repeat(a.t, b.t, st))
         if isinstance(a, (VTuple,)) and isinstance(b, VTuple) and isinstance(op, ast.Add):
             return VTuple(a.items + b.items)
         if isinstance(a, VRef) or isinstance(b, VRef):
@@ -529,8 +529,21 @@ class Interp(Exec):
             return VStr(self.fresh(st, "fmt", z3.StringSort()))
         raise Unsupported(f"binary {type(op).__name__} on {a!r}, {b!r}")
 
-    def str_repeat(self, s, n):
+    def str_repeat(self, s, n, st=None):
+        """s * n as an uninterpreted function; for a literal s the facts of Python's str.__mul__ that hold for every
+        n are recorded once per literal as axioms: the length, and for a one-character literal every character."""
         f = self.ctx.ufunc("str_repeat", z3.StringSort(), z3.IntSort(), z3.StringSort())
+        s2 = z3.simplify(s)
+        if st is not None and z3.is_string_value(s2):
+            key = ("str_repeat_ax", s2.as_string())
+            if key not in st.ghost:
+                st.ghost[key] = True
+                m = z3.Int("rx!n")
+                k = z3.Int("rx!k")
+                ln = len(s2.as_string())
+                st.axioms.append(z3.ForAll([m], z3.Length(f(s2, m)) == z3.If(m > 0, ln * m, 0)))
+                if ln == 1:
+                    st.axioms.append(z3.ForAll([m], z3.InRe(f(s2, m), z3.Star(z3.Re(s2)))))
         return f(s, n)
 
     def lin_binop(self, st, op, a, b, node):
@@ -963,7 +976,7 @@ BUILTIN_CLASSES = {
 }
 
 SPEC_FUNCS = {"all_yields", "lp_solution", "newvar", "newvar_at", "emits", "emitted", "lp_binary", "lp_integer", "lp_lb", "lp_ub", "lp_name",
-              "lp_inf", "lp_families", "lp_isvar", "family", "lp_objective", "lp_setobjective", "forall", "exists", "implies", "iff", "old", "fresh", "bigsum", "result", "ite", "is_none",
+              "call_result", "lp_inf", "lp_families", "lp_isvar", "family", "lp_objective", "lp_setobjective", "forall", "exists", "implies", "iff", "old", "fresh", "bigsum", "result", "ite", "is_none",
               "abstract", "seq_filter", "domain", "count", "typed", "sameobj", "opaque", "the"}
 
 ENUMS = {"CNConfigType": {"DEFAULT": 0, "LEFT_FUSION": 1, "RIGHT_FUSION": 2, "DELETION": 3, "CUSTOM": 4}}
